@@ -9,6 +9,7 @@ Oracle (independent of the model): a second real `Output` fed with the same publ
 extra end point never pulls (so nothing is ever evicted) must give the same answers, and the
 retained length must respect the bound of the property.
 """
+import datetime as dt
 import numpy as np
 
 from .. import common
@@ -16,13 +17,13 @@ from ..fmutil import T, ad, err_class, fm, scalar, us
 
 MODULES = ["Output", "OutputLemmas"]
 GEN_OBLIGATIONS = ["caching_push_based", "push_based_adapters_are_caching", "passthrough_flags", "slot_flags"]
-KINDS = ["direct", "scale", "prev", "next", "scale_prev", "prev_scale", "scale_shared", "callback", "dpush_shared"]
+KINDS = ["direct", "scale", "prev", "next", "scale_prev", "prev_scale", "scale_shared", "callback", "dpush_shared", "dfix_shared"]
 PUSH_BASED = {"prev", "next", "scale_prev", "prev_scale"}
 
 
 def gen_case(rng, max_events=40):
     n = rng.choice([1, 1, 2, 2, 2, 3, 3, 4])
-    eps = [rng.choices(KINDS, weights=[36, 16, 10, 8, 8, 8, 14, 9, 9])[0] for _ in range(n)]
+    eps = [rng.choices(KINDS, weights=[36, 16, 10, 8, 8, 8, 14, 9, 9, 12])[0] for _ in range(n)]
     scale = rng.choice([1, 1, 2, 1000, 3_600_000_000, 86_400_000_000])
     gaps = rng.choice([[1, 2, 3], [2, 4, 6, 10], [1, 5, 7, 20], [3]])
     t = rng.randrange(0, 5) * scale
@@ -77,6 +78,7 @@ def build(case):
     inputs, regs, adapters = [], [], []
     shared = None
     dshared = None
+    fshared = None
     for i, kind in enumerate(case["endpoints"]):
         inp = fm.Input(name=f"in{i}", info=fm.Info(time=None, grid=None, units=None))
         if kind == "callback":
@@ -90,6 +92,17 @@ def build(case):
             dshared >> inp
             inputs.append(inp)
             adapters.append([dshared])
+            regs.append(inp)
+            continue
+        if kind == "dfix_shared":
+            # inputs behind one DelayFixed object with a zero delay (an identity on request times): each end point's requests
+            # reach the output as they are, also when they go back behind another end point's
+            if fshared is None:
+                fshared = ad.DelayFixed(dt.timedelta(0))
+                out >> fshared
+            fshared >> inp
+            inputs.append(inp)
+            adapters.append([fshared])
             regs.append(inp)
             continue
         if kind == "scale_shared" and shared is not None:
